@@ -223,6 +223,12 @@ Example C15_nv_shape : declared ex_sh (sh_first ex_sh) = true.
 Proof. reflexivity. Qed.
 Example C15_nv_mono : mono None (ex_h ++ ex_iters [97; 97; 130; 170; 171; 400; 500; 540]).
 Proof. cbn. lia. Qed.
+(* the monotonicity hypothesis of C15_state_tm_nonneg is needed: a clock that
+   runs backwards inside a period gives a negative state_tm *)
+Example C15_nonneg_needs_mono :
+  calls (trace ex_sh [OnEnable (fun _ => None); OnIteration 10 ex_body; OnIteration 5 ex_body])
+  = [EvCall 0%nat 10 0 true; EvCall 0%nat 5 (-5) false].
+Proof. vm_compute. reflexivity. Qed.
 (* premises of holds / hands_over are met: a is running in period 2, started
    at 0, edited duration 96 *)
 Example C15_nv_running :
